@@ -148,7 +148,9 @@ def check(ctx, args):
                 rerun = os.path.exists(evf) and any(
                     l.split()[1:3] == ["start", s["site"]] for l in open(evf) if len(l.split()) > 2)
                 if s["kind"] in CONTENT and len(incs) >= 2 and not rerun:
-                    fail("restart_after_invalid_outs_does_not_rerun", "restart after removing the fault exits %d" % last["exit"])
+                    sitekind = "chunk" if (s["phase"] == "main" and s["stage"] in pipelib.splits_of(s["dir"])) else s["phase"]
+                    fail("restart_after_invalid_outs_does_not_rerun:%s@%s" % (s["kind"], sitekind),
+                         "restart after removing the fault exits %d" % last["exit"])
                 else:
                     fail("restart_after_fix_fails", "restart after removing the fault exits %d / outs differ" % last["exit"])
         psids = ["%s.inc%d" % (s["psid"], i) for i in range(len(incs))]
